@@ -45,7 +45,8 @@ pub enum ReqKind {
   Bulk { docs: Vec<DocSpec>, malformed: bool },
   /// an NDJSON upload of `n` small documents L0..L(n-1), versions `first_ver`..;
   /// bad: 0 all valid, 1 the last line is not JSON, 2 the last document has a wrong
-  /// value type, 3 a line in the middle is not JSON
+  /// value type, 3 a line in the middle is not JSON, 4 all valid and the first
+  /// document is a giant one (well over 1 MiB of text)
   AddLarge { n: u32, first_ver: u64, bad: u8 },
   Delete { ids: Vec<String> },
   Commit,
@@ -134,6 +135,16 @@ fn doc_json(spec: &DocSpec) -> String {
     DocSpec::WrongType => "{\"_id\": \"w1\", \"body\": \"alpha\", \"n\": \"not a number\"}".into(),
     DocSpec::NullField => "{\"_id\": \"n1\", \"body\": null}".into(),
     DocSpec::NumericId => "{\"_id\": 5, \"body\": \"alpha\"}".into(),
+  }
+}
+
+/// Version of the i-th document of a large upload (the first one of a "giant"
+/// upload is a version whose document is well over 1 MiB).
+fn large_ver(first_ver: u64, i: u32, bad: u8) -> u64 {
+  if bad == 4 && i == 0 {
+    sim::work::BIG_VERSIONS + 97 * 1000
+  } else {
+    first_ver + i as u64
   }
 }
 
@@ -355,8 +366,15 @@ fn gen_case(rng: &mut Rng, c24: bool, thorough: bool) -> HttpCase {
   // small documents in one /add), valid or with an invalid line late in the body
   let mut max_body = MAX_BODY;
   if !with_conc && rng.chance(1, 10) {
-    max_body = 512 * 1024;
-    let n = if rng.chance(1, 4) { 20 + rng.below(200) as u32 } else { 1000 + rng.below(900) as u32 };
+    let giant = rng.chance(1, 5);
+    max_body = if giant { 4 * 1024 * 1024 } else { 512 * 1024 };
+    let n = if giant {
+      1 + rng.below(4) as u32
+    } else if rng.chance(1, 4) {
+      20 + rng.below(200) as u32
+    } else {
+      1000 + rng.below(900) as u32
+    };
     let at = (reqs.len() - rng.usize(reqs.len().min(4))).max(1);
     reqs.insert(
       at.min(reqs.len()),
@@ -364,7 +382,7 @@ fn gen_case(rng: &mut Rng, c24: bool, thorough: bool) -> HttpCase {
         kind: ReqKind::AddLarge {
           n,
           first_ver: 6_000_000,
-          bad: *rng.pick(&[0u8, 0, 1, 2, 3]),
+          bad: if giant { 4 } else { *rng.pick(&[0u8, 0, 1, 2, 3]) },
         },
         t: Transport {
           content_length: rng.chance(1, 2),
@@ -505,7 +523,7 @@ fn build(kind: &ReqKind) -> Built {
         }
         body.push_str(&doc_json(&DocSpec::Valid {
           id: format!("L{}", i),
-          ver: *first_ver + i as u64,
+          ver: large_ver(*first_ver, i, *bad),
         }));
         body.push('\n');
       }
@@ -913,7 +931,7 @@ async fn run_async(case: &HttpCase, dir: &Path, pfs: &passfs::PassFs, stats: &mu
     let body_valid = match &req.kind {
       ReqKind::Add { docs } => docs.iter().all(is_valid),
       ReqKind::Bulk { docs, malformed } => !*malformed && docs.iter().all(is_valid),
-      ReqKind::AddLarge { bad, .. } => *bad == 0,
+      ReqKind::AddLarge { bad, .. } => *bad == 0 || *bad == 4,
       ReqKind::Search { variant } => *variant != 2,
       _ => true,
     };
@@ -986,7 +1004,7 @@ async fn run_async(case: &HttpCase, dir: &Path, pfs: &passfs::PassFs, stats: &mu
           stats.inc("probe.large_uploads");
           if !initialised {
             Some(("no index -> 404", vec![404]))
-          } else if *bad == 0 {
+          } else if *bad == 0 || *bad == 4 {
             Some(("valid large add -> 200", vec![200]))
           } else {
             Some(("invalid document in a large add -> 4xx", vec![400, 422]))
@@ -1096,10 +1114,10 @@ async fn run_async(case: &HttpCase, dir: &Path, pfs: &passfs::PassFs, stats: &mu
         })
         .collect(),
       ReqKind::Delete { ids } => ids.iter().map(|id| QOp::Del { id: id.clone() }).collect(),
-      ReqKind::AddLarge { n, first_ver, .. } => (0..*n)
+      ReqKind::AddLarge { n, first_ver, bad } => (0..*n)
         .map(|i| {
           let id = format!("L{}", i);
-          let ver = *first_ver + i as u64;
+          let ver = large_ver(*first_ver, i, *bad);
           let doc = make_doc(Profile::Basic, &id, ver);
           QOp::Add {
             id,
@@ -1116,7 +1134,7 @@ async fn run_async(case: &HttpCase, dir: &Path, pfs: &passfs::PassFs, stats: &mu
       ReqKind::Init { bad: false } if st.is_success() => initialised = true,
       ReqKind::AddLarge { n, bad, .. } if st.is_success() => {
         let queued = serde_json::from_slice::<Value>(&resp.body).ok().and_then(|v| v.get("queued").and_then(|q| q.as_u64())).unwrap_or(u64::MAX);
-        if *bad != 0 {
+        if *bad != 0 && *bad != 4 {
           out.violations.push(Violation::new(
             &["C23", "C24"],
             "invalid-document-acknowledged",
